@@ -61,7 +61,7 @@ def block_s(ll=lens):
 
 def shards(tier):
     out = [{"kind": "values", "i": i} for i in range(4)] + [{"kind": "bytes", "i": i} for i in range(6)]
-    out += [{"kind": "messages", "i": i} for i in range(2)] + [{"kind": "ids", "i": 0}, {"kind": "biglists"}]
+    out += [{"kind": "messages", "i": i} for i in range(2)] + [{"kind": "ids", "i": 0}, {"kind": "biglists"}, {"kind": "overlap"}]
     out += [{"kind": "atheris", "i": i, "target": t} for i, t in enumerate(["block", "transaction", "block_seeded"])]
     return out
 
@@ -469,6 +469,21 @@ def run_ids(res, tier, seed):
                 if signed.hash() != R.sha256d(signed.serialize()):
                     res.fail("id", "id!=sha256d(canonical):Transaction:wallet-signed", "a transaction signed by the wallet (from a decoded unsigned one) reports an id that is not sha256d of its encoding",
                              {"ids_case": case, "way": "wallet"})
+        # one id, one content: whichever way an object with a given id was obtained, its canonical encoding is the same
+        # (skipped for the store when two written blocks share a transaction id: the recorded store finding C08-F1)
+        txids = [t.id() for x in blks for t in x.txs]
+        shared = len(set(txids)) != len(txids)
+        enc = {}
+        for way, lst in three.items():
+            if way == "store" and shared:
+                res.count("ids_store_comparison_skipped_shared_transaction_id")
+                continue
+            for blk in lst:
+                first = enc.setdefault(blk.hash(), (way, blk.serialize()))
+                if first[1] != blk.serialize():
+                    res.fail("id", "same-id-different-content:Block:%s-vs-%s" % (first[0], way),
+                             "the block known under id %s has one encoding when obtained from %s and another when obtained from %s (%d vs %d bytes)" % (
+                                 blk.hash().hex()[:16], first[0], way, len(first[1]), len(blk.serialize())), {"ids_case": case, "way": way})
         for way, lst in three.items():
             for blk in lst:
                 res.evaluations += 1
@@ -482,6 +497,64 @@ def run_ids(res, tier, seed):
                 res.nontrivial(way + blk.hash().hex()[:16])
 
     p()
+
+
+def run_overlap(res, tier, seed):
+    """Two encodings overlap in time (the networking thread encodes a message while the miner / wallet thread encodes a block):
+    while object X is in the middle of serialize() -- at its k-th nested output -- another thread serializes object Y completely.
+    Both results (and repeated calls afterwards) must be the canonical encodings.  Schedule injection at a nested encoder;
+    the wait for the second thread is bounded and is never a correctness signal."""
+    import random
+    import threading
+    D, S, b = sk()
+    from vf import chainexec
+    n = 4 if tier == "quick" else 40
+    rnd = random.Random(env.subseed(seed, ID, "overlap"))
+    for h in range(n):
+        case = chainexec.gen_case(random.Random(rnd.randrange(1 << 30)), chainexec.CFGS[0], 6, 0.0, ["C01"], p_tx=0.9, p_unusual=0.3)
+        r = chainexec.Run(case, ("C07",))
+        r.execute()
+        blks = [x for x in r.world.blocks.values()]
+        objs = [(x.raw(), b.to_sk_block(x)) for x in blks] + [(t.raw(), b.to_sk_tx(t)) for x in blks for t in x.txs[1:]]
+        objs += [(x.header_raw(), b.to_sk_block(x).header) for x in blks[:2]]
+        for trial in range(12 if tier == "quick" else 30):
+            (wx, X), (wy, Y) = rnd.choice(objs[:-2]), rnd.choice(objs)        # X has outputs (a block or a transaction)
+            k = rnd.choice([1, 1, 1, 2, 3])
+            orig = D.Output.stream_serialize
+            state = {"n": 0}
+
+            def hooked(self, f, _orig=orig, _state=state, _Y=Y):
+                _state["n"] += 1
+                if _state["n"] == k and "t" not in _state:
+                    out = {}
+                    t = threading.Thread(target=lambda: out.setdefault("r", _Y.serialize()))
+                    t.daemon = True
+                    _state["t"], _state["out"] = t, out
+                    t.start()
+                    t.join(0.5)
+                return _orig(self, f)
+
+            D.Output.stream_serialize = hooked
+            try:
+                gx = X.serialize()
+            finally:
+                D.Output.stream_serialize = orig
+            if "t" in state:
+                state["t"].join(5)
+            res.evaluations += 1
+            if "t" not in state:
+                res.count("overlap_not_reached")
+                continue
+            res.count("overlapping_encodings")
+            res.nontrivial("overlap%d.%d" % (h, trial))
+            got = {"the interrupted encoding": (gx, wx), "the overlapping encoding": (state["out"].get("r"), wy),
+                   "the first object encoded again": (X.serialize(), wx), "the second object encoded again": (Y.serialize(), wy)}
+            for what, (g, w_) in got.items():
+                if g != w_:
+                    res.fail("roundtrip", "encoding-wrong-when-two-encodings-overlap", "%s is not the canonical encoding (%s bytes, expected %d) when a second thread encodes another object at nested output #%d" % (
+                        what, len(g) if g is not None else None, len(w_), k), {"overlap": [h, trial]})
+                    return
+    res.sample({"overlapping_encodings": "a second thread encodes another object while the first is inside serialize()"})
 
 
 # ------------------------------------------------------------------ atheris
@@ -555,6 +628,8 @@ def run(shard, tier, seed):
         run_ids(res, tier, seed)
     elif k == "biglists":
         run_biglists(res, tier, seed)
+    elif k == "overlap":
+        run_overlap(res, tier, seed)
     elif k == "atheris":
         run_atheris(res, tier, seed, shard)
     return res
@@ -568,6 +643,9 @@ def replay(case):
         return res.failures
     if "big" in case:
         run_biglists(res, "quick", 1)
+        return res.failures
+    if "overlap" in case:
+        run_overlap(res, "quick", 1)
         return res.failures
     if case.get("type") == "CoinbaseData":
         try:
